@@ -225,7 +225,7 @@ class Enc:
 
 
 def encode(body):
-    """-> (model query pieces: ne, args, program tokens), created list [(label, kind, name)]"""
+    """-> model query pieces: ne, args, program tokens; entry names by index"""
     e = Enc()
     args = []
     for v in ("c", "t"):
@@ -233,7 +233,8 @@ def encode(body):
         e.created.append((l, "A", v))
         args.append("%d.%d" % (l, e.ent(v)))
     toks = e.block(body)
-    return len(e.ents), ",".join(args), ",".join(str(x) for x in toks), e.created
+    names = sorted(e.ents, key=e.ents.get)
+    return len(e.ents), ",".join(args), ",".join(str(x) for x in toks), names
 
 
 # ----------------------------------------------------------------------------------------------
